@@ -550,8 +550,10 @@ def _bind_generators(eng, gens, st, frame):
         items = concrete_items(eng, it, st)
         if items is not None:
             it = eng.to_smt(VList(items), st)
+        tname = ast.unparse(gen.target).replace(" ", "")
         if isinstance(it, V) and isinstance(it.kind, SetK):
-            x = fresh(it.kind.elem, "c")
+            # canonical bound-variable names make alpha-equivalent comprehensions syntactically equal
+            x = V(it.kind.elem, z3.Const(f"cv!{tname}!{len(bound)}", it.kind.elem.sort()))
             guards.append(z3.Select(it.term, x.term))
             val = x
             bound.append(x.term)
@@ -560,7 +562,7 @@ def _bind_generators(eng, gens, st, frame):
             if seq is None:
                 raise Untranslatable(f"comprehension over {it!r}", gen.iter)
             n, acc, _ = seq
-            idx = fresh(INT, "ci")
+            idx = V(INT, z3.Const(f"ci!{tname}!{len(bound)}", z3.IntSort()))
             guards.append(z3.And(idx.term >= 0, idx.term < n))
             val = acc(idx.term)
             bound.append(idx.term)
